@@ -658,7 +658,9 @@ def gen_response(rng: random.Random, compact: bool = False, lax_endings: bool = 
             pos = 0
             while pos < nb:
                 k = min(nb - pos, rng.choice([1, 2, 7, 100]))
-                parts.append(b"%x%s%s%s%s" % (k, rng.choice([b"", b"", b";e=1", b" "]), eol, data[pos : pos + k], eol))
+                # lax (response) parsing strips blanks around the chunk size: leading and trailing padding are part of the language
+                lead = rng.choice([b"", b"", b"", b"", b" ", b"\t", b"  "]) if lax_endings else b""
+                parts.append(b"%s%x%s%s%s%s" % (lead, k, rng.choice([b"", b"", b";e=1", b" ", b"\t", b" ;x=y"]), eol, data[pos : pos + k], eol))
                 pos += k
             parts.append(b"0" + eol)
             if rng.random() < 0.3:
